@@ -1,4 +1,4 @@
-import WaVerif.Lemmas.C24RoundTrip
+import WaVerif.Lemmas.C24Line
 import WaVerif.Gen.C24Variant
 /-!
 # C24 — property theorems (build-tag expressions)
@@ -116,6 +116,46 @@ theorem parseToString_statement_false : ¬ ParseToStringStatement false := by
   obtain ⟨e', he, _⟩ := h _ _ parse_toString_double_not_witness.1
   rw [parse_toString_double_not_witness.2.2.1] at he
   cases he
+
+/-- the round trip at the level of whole lines, for *parsed* expressions (their tags are
+well-formed because the lexer produced them): `Parse(line) = e` ⇒ `Parse("#wa:build " + e.String())`
+succeeds with an equivalent expression — under the same honest guard. -/
+theorem parse_toString_line (w : Bool) (l : List Char) (e : Expr) (h : parseLine l = .ok e)
+    (hr : w = true ∨ NoNotNot e) :
+    ∃ e', parseLine (waBuildPrefix ++ ' ' :: str w e) = .ok e' ∧ ∀ ρ, eval ρ e' = eval ρ e := by
+  have hv := parseLine_validTags l e h
+  rw [parseLine_str w e hv]
+  exact parse_toString_any w e hv hr
+
+example : parseLine (chars! "#wa:build a && (b || !c)") =
+      .ok (.and (.tag ['a']) (.or (.tag ['b']) (.not (.tag ['c'])))) ∧
+    NoNotNot (.and (.tag ['a']) (.or (.tag ['b']) (.not (.tag ['c'])))) := by
+  refine ⟨rfl, ?_⟩; simp [NoNotNot, Expr.isNot]
+
+/-- with the repaired printer the full statement holds -/
+theorem parseToString_statement_repaired : ParseToStringStatement true :=
+  fun l e h => parse_toString_line true l e h (Or.inl rfl)
+
+/-- the full statement for the printer found in the code, as far as it is true:
+it holds outright iff the printer parenthesises `!(!x)` -/
+theorem parseToString_statement_iff : ParseToStringStatement Gen.wrapNot ↔ Gen.wrapNot = true := by
+  constructor
+  · intro h
+    cases hw : Gen.wrapNot with
+    | true => rfl
+    | false => rw [hw] at h; exact absurd h parseToString_statement_false
+  · intro hw; rw [hw]; exact parseToString_statement_repaired
+
+/-- a single `&` (or `|`) is a lexical error wherever the lexer meets it -/
+example : lexAll (chars! "a & b") = [.tag ['a'], .bad '&'] := rfl
+example : Tok.bad '&' ∈ lexAll (chars! "a &") := by decide
+
+theorem lex_single_amp (acc : List Char) (c : Char) (cs : List Char) (h : c ≠ '&') :
+    lexGo none acc ('&' :: c :: cs) = flush acc ++ [.bad '&'] ∧ lexGo none acc ['&'] = flush acc ++ [.bad '&'] := by
+  constructor
+  · rw [lexGo, if_neg (by decide), if_neg (by decide), if_neg (by decide), if_neg (by decide), if_neg (by decide),
+      if_pos (by decide), lexGo, if_neg h]
+  · rfl
 
 /-! ## the loader's file filter -/
 
